@@ -33,7 +33,7 @@ ASSUMPTIONS = ["BufferedWriter applies deletes/updates to buffered documents as 
                "with several caller threads each thread works on its own keys, so the result does not depend on the order in which the buffered writer's lock serialises them",
                "AsyncWriter is driven with the calls it documents as buffered (add, update, delete_by_term)",
                "MpWriter over RamStorage is not a meaningful combination (sub-processes share no memory) and is not generated",
-               "MpWriter.cancel() is not exercised (sub-processes of a cancelled MpWriter never exit: recorded as a note in DESIGN.md)"]
+               "MpWriter.cancel() is exercised by C04 and C10 (repaired there, eb9bff1), not here: every C18 transaction commits"]
 TIERS = {"quick": {"runs": 700, "time_budget": 100, "audit_every": 40},
          "thorough": {"runs": 30000, "time_budget": 1500, "audit_every": 100}}
 
